@@ -218,7 +218,7 @@ pub fn run(report: &mut Report, replay_v: Option<&Value>) {
     let (n_bases, rounds) = if report.thorough() { (150, 10) } else { (100, 1) };
     let mut stats = GenStats::default();
     let classify = |_: &Failure| None;
-    let hooks = Hooks { classify: &classify, classify_compile: &|_, _| None, compile_failure_is_violation: false };
+    let hooks = Hooks { classify: &classify, classify_compile: &|_, _| None, compile_failure_is_violation: false, rebuild: None };
     for round in 0..rounds {
         let tapes = sample_tapes(report.seed, 0xC09 + round as u64 * 7919, n_bases, 3072);
         let groups: Vec<Group> = tapes.iter().filter_map(|tp| build_group(tp, &mut stats, 3)).collect();
